@@ -113,15 +113,24 @@ fn probe<T>(keys: &[Vec<u8>], ctor: fn(&[u8]) -> Option<T>, fp: fn(&T) -> Vec<u8
             // a fresh copy of the key at a different address per run: pointer-valued garbage differs
             let kcopy: Vec<u8> = key.clone();
             let _spacer = vec![ambient; 64 + ai * 4096];
-            let mut slot: Box<MaybeUninit<T>> = Box::new(MaybeUninit::uninit());
-            unsafe { ptr::write_bytes(slot.as_mut_ptr() as *mut u8, ambient, n) };
+            // the instance lives inside a 64-aligned arena: the first run at a 64-aligned address,
+            // the second at the least aligned address the type permits (an instance embedded after
+            // a one-byte field, say), so erasure code that assumes more alignment than the type
+            // guarantees is exposed
+            let al = std::mem::align_of::<T>().max(1);
+            let mut arena: Vec<u128> = vec![0u128; (n + 256) / 16 + 8];
+            let base = arena.as_mut_ptr() as *mut u8;
+            let base64 = unsafe { base.add(base.align_offset(64)) };
+            let off = if ai == 0 { 0 } else { al % 64 };
+            let slot = unsafe { base64.add(off) } as *mut T;
+            unsafe { ptr::write_bytes(slot as *mut u8, ambient, n) };
             scrub_stack(ambient);
-            if !build_into(slot.as_mut_ptr(), &kcopy, ctor) {
+            if !build_into(slot, &kcopy, ctor) {
                 return None;
             }
-            let before = snapshot(slot.as_ptr() as *const u8, n);
-            unsafe { ptr::drop_in_place(slot.as_mut_ptr()) };
-            let after = snapshot(slot.as_ptr() as *const u8, n);
+            let before = snapshot(slot as *const u8, n);
+            unsafe { ptr::drop_in_place(slot) };
+            let after = snapshot(slot as *const u8, n);
             pair[ai] = (before, after);
         }
         runs.push(pair);
